@@ -610,6 +610,14 @@ func (m *MonC08) judge(s *SlashRecord) {
 	if s.Err != "" || s.Panic != "" {
 		if strings.Contains(s.Err, "insufficient funds") && strings.Contains(s.Err, "spendable balance") && len(hits) > 0 {
 			rep.KnownFinding("C08", "pool-short", "slash callback fails with %q while claiming rewards for a redelegation destination: the rewards pool is short (consequence of the recorded C12 findings)", s.Err+s.Panic)
+			if !s.Real && !s.toppedUp {
+				// look past the recorded finding: the same callback on a branch whose pool can pay
+				va, _ := sdk.ValAddressFromBech32(s.Val)
+				rec2 := m.R.slashOn(m.R.W.Ctx, va, s.Fraction, false, true)
+				rec2.toppedUp = true
+				rep.Class("C08.retried-with-solvent-pool")
+				m.judge(rec2)
+			}
 			return
 		}
 		rep.Violate("C08", "C08.returns", s.Idx, "slash callback for %s fraction %s failed: %s%s [%s]", w.Name(s.Val), s.Fraction, s.Err, s.Panic, s.Stack)
